@@ -222,7 +222,8 @@ func (e *Exec) evalBuiltin(name string, call *ast.CallExpr, st *State, ctx *Ctx)
 		case isRefList(t):
 			return []string{"(rllen " + v + ")"}
 		case sortOf(t) == "String":
-			return []string{"(str.len " + v + ")"}
+			// len of a string counts bytes, not code points (byteLen: >= str.len, equal for ASCII text)
+			return []string{"(byteLen " + v + ")"}
 		}
 		if _, ok := t.Underlying().(*types.Slice); ok {
 			ln := "slen_" + sanitize(types.TypeString(t, shortQual))
